@@ -60,6 +60,29 @@ def _same(x, y):
     return repr(x[2]) == repr(y[2])
 
 
+def _library_root():
+    import os
+    import sys
+    m = sys.modules.get('oslo_utils')
+    return os.path.dirname(os.path.abspath(m.__file__)) if m is not None else '\0'
+
+
+def _yield_on_line(frame, event, arg):
+    if event == 'line':
+        import time
+        time.sleep(0)       # gives the interpreter lock away: another thread runs before the next line of this one
+    return _yield_on_line
+
+
+def _yield_in_library(frame, event, arg):
+    if frame.f_code.co_filename.startswith(_ROOT[0] or _ROOT.__setitem__(0, _library_root()) or _ROOT[0]):
+        return _yield_on_line
+    return None
+
+
+_ROOT = [None]
+
+
 class Recorder:
     def __init__(self, module, names, limit=40000, every=1, again_every=5):
         self.module, self.names = module, [n for n in names if hasattr(module, n)]
@@ -156,20 +179,30 @@ class Recorder:
                 sample = allc[::max(1, len(allc) // 600)][:600]
                 if len(sample) < 2:
                     continue
-                asked += 8 * len(sample)
-                for in_step in (False, True):
+                import random
+                random.Random(len(allc)).shuffle(sample)    # questions of every stage of the check next to each other
+                asked += 16 * len(sample)
+                for in_step, yielding in ((False, False), (True, False), (True, True), (False, True)):
                     barrier = threading.Barrier(4)
 
-                    def worker(k, sample=sample, in_step=in_step, barrier=barrier):
-                        # first four rotations of the same list (at any moment the threads ask different questions),
-                        # then all four in step (the same question from several threads at nearly the same moment)
+                    def worker(k, sample=sample, in_step=in_step, yielding=yielding, barrier=barrier):
+                        # four rotations of the same list (at any moment the threads ask different questions) and all
+                        # four in step (the same question from several threads at nearly the same moment); each once
+                        # left to the interpreter's own switching and once with the thread giving way after every
+                        # LINE it executes inside oslo_utils (a trace function that sleeps for no time), which makes
+                        # the interleaving independent of how busy the machine is
                         off = 0 if in_step else (k * len(sample)) // 4
                         barrier.wait()
-                        for name_, fn, a, kw, first in sample[off:] + sample[:off]:
-                            second = _outcome(fn, _snap(a), {x: _snap(v) for x, v in kw.items()})
-                            if not _same(first, second):
-                                with lock:
-                                    conc.append((name_, a, kw, first, second))
+                        if yielding:
+                            sys.settrace(_yield_in_library)
+                        try:
+                            for name_, fn, a, kw, first in sample[off:] + sample[:off]:
+                                second = _outcome(fn, _snap(a), {x: _snap(v) for x, v in kw.items()})
+                                if not _same(first, second):
+                                    with lock:
+                                        conc.append((name_, a, kw, first, second))
+                        finally:
+                            sys.settrace(None)
                     ths = [threading.Thread(target=worker, args=(k,)) for k in range(4)]
                     [t.start() for t in ths]
                     [t.join() for t in ths]
